@@ -75,6 +75,65 @@ func BlockFacts(b *ssa.BasicBlock) []Fact {
 			}
 		}
 	}
+	// a && b / a || b evaluated as a value (tagless switch cases, assignments)
+	// become a phi of booleans; decode what a definite verdict of it implies
+	for i := 0; i < len(out) && len(out) < 64; i++ {
+		for _, f := range ExpandLogical(out[i]) {
+			if !seen[f] {
+				seen[f] = true
+				out = append(out, f)
+			}
+		}
+	}
+	return out
+}
+
+// ExpandLogical: f's condition is the phi go/ssa builds for `a && b` (edges:
+// false from every short-circuit exit, b from the last operand's block) or
+// `a || b` (true …, b). A true && (false ||) verdict means control came
+// through the last operand's block with that operand true (false): the facts
+// of that block hold, and so does the operand's verdict.
+func ExpandLogical(f Fact) []Fact {
+	phi, ok := f.Cond.(*ssa.Phi)
+	if !ok || len(phi.Edges) < 2 {
+		return nil
+	}
+	if bt, isB := phi.Type().Underlying().(*types.Basic); !isB || bt.Kind() != types.Bool {
+		return nil
+	}
+	var last ssa.Value
+	lastIdx := -1
+	nConst := 0
+	var constVal bool
+	for i, e := range phi.Edges {
+		if cb, isC := ConstBool(e); isC {
+			if nConst > 0 && cb != constVal {
+				return nil
+			}
+			constVal = cb
+			nConst++
+			continue
+		}
+		if last != nil {
+			return nil
+		}
+		last, lastIdx = e, i
+	}
+	if last == nil || nConst == 0 || constVal == f.True {
+		// && yields facts only when true (constants are false); || only when false
+		return nil
+	}
+	pred := phi.Block().Preds[lastIdx]
+	c, t := last, f.True
+	for {
+		u, isU := c.(*ssa.UnOp)
+		if !isU || u.Op != token.NOT {
+			break
+		}
+		c, t = u.X, !t
+	}
+	out := []Fact{{c, t}}
+	out = append(out, BlockFacts(pred)...)
 	return out
 }
 
@@ -149,6 +208,31 @@ func PathsTo(target *ssa.BasicBlock, max int) (paths []Path, ok bool) {
 			n := len(facts)
 			if f, has := edgeFact(b, s); has {
 				facts = append(facts, f)
+				// a boolean phi (a && b / a || b as a value): on this path it equals the
+				// operand of the edge the path came through
+				if phi, isPhi := f.Cond.(*ssa.Phi); isPhi {
+					pb := phi.Block()
+					for i := len(blocks) - 1; i > 0; i-- {
+						if blocks[i] == pb {
+							for j, pr := range pb.Preds {
+								if pr == blocks[i-1] && j < len(phi.Edges) {
+									c, t := phi.Edges[j], f.True
+									for {
+										u, isU := c.(*ssa.UnOp)
+										if !isU || u.Op != token.NOT {
+											break
+										}
+										c, t = u.X, !t
+									}
+									if _, isC := c.(*ssa.Const); !isC {
+										facts = append(facts, Fact{c, t})
+									}
+								}
+							}
+							break
+						}
+					}
+				}
 			}
 			dfs(s)
 			facts = facts[:n]
@@ -498,9 +582,42 @@ func SameValue(a, b ssa.Value) bool {
 		}
 		return true
 	}
+	// two loads of the same slice element s[i] with no store to an element of a
+	// slice of that type and no call taking the slice in between
+	if ia, ok := ua.X.(*ssa.IndexAddr); ok {
+		ib, ok2 := ub.X.(*ssa.IndexAddr)
+		if !ok2 || !(Strip(ia.X) == Strip(ib.X) || SameValue(ia.X, ib.X)) || !(Strip(ia.Index) == Strip(ib.Index) || SameValue(ia.Index, ib.Index)) {
+			return false
+		}
+		first, second := ssa.Instruction(ua), ssa.Instruction(ub)
+		if !Reaches(first, second) {
+			first, second = second, first
+		}
+		for _, blk := range ua.Parent().Blocks {
+			for _, ins := range blk.Instrs {
+				interferes := false
+				switch x := ins.(type) {
+				case *ssa.Store:
+					if i2, isIA := x.Addr.(*ssa.IndexAddr); isIA && types.Identical(i2.X.Type(), ia.X.Type()) {
+						interferes = true
+					}
+				case ssa.CallInstruction:
+					for _, arg := range x.Common().Args {
+						if Strip(arg) == Strip(ia.X) {
+							interferes = true
+						}
+					}
+				}
+				if interferes && Reaches(first, ins) && Reaches(ins, second) && ins != first && ins != second {
+					return false
+				}
+			}
+		}
+		return true
+	}
 	fa, ok1 := ua.X.(*ssa.FieldAddr)
 	fb, ok2 := ub.X.(*ssa.FieldAddr)
-	if !ok1 || !ok2 || fa.Field != fb.Field || Strip(fa.X) != Strip(fb.X) {
+	if !ok1 || !ok2 || fa.Field != fb.Field || !(Strip(fa.X) == Strip(fb.X) || SameValue(fa.X, fb.X)) {
 		return false
 	}
 	first, second := ssa.Instruction(ua), ssa.Instruction(ub)
